@@ -33,11 +33,13 @@ pub fn design(nmax: usize, pmax: usize, f32: bool) -> BoxedStrategy<Mat> {
         })
         .prop_map(move |(x0, scales, shifts)| {
             // columns of x0 have norm <= 1 over n rows: bring the spread to O(1) first
-            let n = x0.r as f64;
+            // the shift is measured in units of the column's own spread: |mean| / std <= 100 (f32: 4)
+            let sd0: Vec<f64> = x0.col_vars(0).iter().map(|v| v.sqrt()).collect();
+            let mu0 = x0.col_means();
             Mat::from_fn(x0.r, x0.c, |i, j| {
                 let sc = if f32 { scales[j].min(100.0).max(0.1) } else { scales[j] };
                 let shift = if shifts[j].1 { shifts[j].0 * if f32 { 4.0 } else { 100.0 } } else { 0.0 };
-                (x0.at(i, j) * n.sqrt() + shift) * sc
+                ((x0.at(i, j) - mu0[j]) / sd0[j].max(1e-300) + shift) * sc
             })
         })
         .boxed()
@@ -221,6 +223,7 @@ fn check_bad(case: &BadCase, ctx: &mut Ctx) -> Result<(), Fail> {
 pub fn property() -> Property {
     Property {
         id: "C07",
+        quick_mult: 64,
         rule: "design matrices U diag(s) V^T (cond 10, 1e3 or 1e6; f32: <= 1e2) with 1<=p<=8, p<n<=50 (quick) / 80 (thorough), each column rescaled by 10^[-2,3] and shifted by up to 100 spreads (70% of the columns); targets = linear signal + intercept + noise, or pure noise, at scales 1e-2..1e2; alpha in 1e-3..1e2; both OLS solvers, both ridge solvers, both normalisation settings on every case; fresh rows for predict. non-trivial = p >= 2, a column with |mean| > 0.1 std and cond([X 1]) >= 10; distinct = distinct serialised case",
         assumptions: vec![
             format!("residual / gradient bounds are C*eps*n*scale with C = {} and scale = ||A|| (||A|| ||w|| + ||y||)", C),
